@@ -25,13 +25,15 @@ Qed.
 (* the address / the parents as "name/" are among the lookups; so is the "self:"
    port of each directory on the way *)
 Lemma flagged_in_lookups : forall cur ic,
-  In ic (flagged (ancestors cur)) -> In (lookup_path ic, snd ic) (lookups cur).
+  In ic (flagged (ancestors cur)) ->
+  In {| lk_path := lookup_path ic; lk_base := snd ic; lk_parent := fst ic |} (lookups cur).
 Proof.
   intros cur ic H. unfold lookups. apply in_flat_map. exists ic. split; [assumption | left; reflexivity].
 Qed.
 
 Lemma self_in_lookups : forall cur ic s,
-  In ic (flagged (ancestors cur)) -> rel2abs self_name (snd ic) = Some s -> In (s, snd ic) (lookups cur).
+  In ic (flagged (ancestors cur)) -> rel2abs self_name (snd ic) = Some s ->
+  In {| lk_path := s; lk_base := snd ic; lk_parent := fst ic |} (lookups cur).
 Proof.
   intros cur ic s H Hs. unfold lookups. apply in_flat_map. exists ic. split; [assumption|].
   rewrite Hs. right. left. reflexivity.
@@ -48,10 +50,10 @@ Section KeysExt.
   Proof.
     induction fuel as [|f IH]; intros orig cur; simpl; [reflexivity|].
     apply fold_left_ext. intros acc ic.
-    destruct (apropos (fst ic)) as [m|]; [|reflexivity].
+    destruct (apropos (lk_path ic)) as [m|]; [|reflexivity].
     apply fold_left_ext. intros acc' e.
     destruct acc' as [l|]; [|reflexivity].
-    destruct (rel2abs e (snd ic)) as [t|]; [|reflexivity].
+    destruct (resolve_entry (lk_parent ic) (port_name m) e (lk_base ic)) as [t|]; [|reflexivity].
     destruct (str_eqb t orig || str_eqb t cur); [reflexivity|].
     rewrite same_members, IH. reflexivity.
   Qed.
@@ -127,26 +129,26 @@ Section Complete.
   (* what one entry contributes *)
   Variables orig start : str.      (* the message's address; the address this scan started from *)
 
-  Definition entry_deps (f : nat) (c e : str) : option (list str) :=
-    match rel2abs e c with
+  Definition entry_deps (f : nat) (par : bool) (name c e : str) : option (list str) :=
+    match resolve_entry par name e c with
     | Some t => if str_eqb t orig || str_eqb t start then Some []
                 else if has_key keys t then Some [t] else scan_deps apropos keys f orig t
     | None => None
     end.
 
-  Definition level_step (f : nat) (acc : option (list str)) (ic : str * str) : option (list str) :=
-    match apropos (fst ic) with
+  Definition level_step (f : nat) (acc : option (list str)) (ic : lookup) : option (list str) :=
+    match apropos (lk_path ic) with
     | None => acc
-    | Some m => fold_left (acc_step str str (entry_deps f (snd ic))) (dep_values m) acc
+    | Some m => fold_left (acc_step str str (entry_deps f (lk_parent ic) (port_name m) (lk_base ic))) (dep_values m) acc
     end.
 
   Lemma scan_deps_unfold : forall f,
     scan_deps apropos keys (S f) orig start = fold_left (level_step f) (lookups start) (Some []).
   Proof.
     intros f. simpl. apply fold_left_ext. intros acc ic. unfold level_step.
-    destruct (apropos (fst ic)) as [m|]; [|reflexivity].
+    destruct (apropos (lk_path ic)) as [m|]; [|reflexivity].
     apply fold_left_ext. intros acc' e. unfold acc_step, entry_deps.
-    destruct acc' as [l|]; destruct (rel2abs e (snd ic)) as [t|]; try reflexivity.
+    destruct acc' as [l|]; destruct (resolve_entry (lk_parent ic) (port_name m) e (lk_base ic)) as [t|]; try reflexivity.
     destruct (str_eqb t orig || str_eqb t start); [rewrite app_nil_r; reflexivity|].
     destruct (has_key keys t); [reflexivity|].
     destruct (scan_deps apropos keys f orig t); reflexivity.
@@ -160,15 +162,15 @@ Section Complete.
 
   Lemma level_some : forall f ics l0 r, fold_left (level_step f) ics (Some l0) = Some r ->
     incl l0 r /\
-    forall ic m e, In ic ics -> apropos (fst ic) = Some m ->
+    forall ic m e, In ic ics -> apropos (lk_path ic) = Some m ->
                    In e (dep_values m) ->
-                   exists l', entry_deps f (snd ic) e = Some l' /\ incl l' r.
+                   exists l', entry_deps f (lk_parent ic) (port_name m) (lk_base ic) e = Some l' /\ incl l' r.
   Proof.
     induction ics as [|ic ics IH]; intros l0 r H; simpl in H.
     - inversion H; subst. split; [apply incl_refl | intros ? ? ? []].
     - unfold level_step at 2 in H.
-      destruct (apropos (fst ic)) as [m|] eqn:Ea.
-      + destruct (fold_left (acc_step str str (entry_deps f (snd ic))) (dep_values m) (Some l0)) as [l1|] eqn:E1;
+      destruct (apropos (lk_path ic)) as [m|] eqn:Ea.
+      + destruct (fold_left (acc_step str str (entry_deps f (lk_parent ic) (port_name m) (lk_base ic))) (dep_values m) (Some l0)) as [l1|] eqn:E1;
           [|rewrite level_none in H; discriminate].
         destruct (acc_some _ _ _ _ _ _ E1) as [Hi1 Hx1].
         destruct (IH _ _ H) as [Hi Hx]. split.
@@ -189,8 +191,8 @@ Section Complete.
   Theorem scan_complete : forall fuel r ic m e t,
     scan_deps apropos keys fuel orig start = Some r ->
     In ic (lookups start) ->
-    apropos (fst ic) = Some m ->
-    In e (dep_values m) -> rel2abs e (snd ic) = Some t -> has_key keys t = true ->
+    apropos (lk_path ic) = Some m ->
+    In e (dep_values m) -> resolve_entry (lk_parent ic) (port_name m) e (lk_base ic) = Some t -> has_key keys t = true ->
     t <> orig -> t <> start ->
     In t r.
   Proof.
@@ -235,8 +237,8 @@ Section Pushed.
     pushes A apropos fuel ms = Some ps ->
     In k (map_keys A ms) -> index_of A k ms = Some o ->
     In ic (lookups k) ->
-    apropos (fst ic) = Some m ->
-    In e (dep_values m) -> rel2abs e (snd ic) = Some t ->
+    apropos (lk_path ic) = Some m ->
+    In e (dep_values m) -> resolve_entry (lk_parent ic) (port_name m) e (lk_base ic) = Some t ->
     index_of A t ms = Some i -> has_key (map_keys A ms) t = true -> t <> k ->
     In (i, o) ps.
   Proof.
@@ -258,13 +260,13 @@ Section Pushed.
     In k (map_keys A ms) -> index_of A k ms = Some o ->
     In ic (flagged (ancestors k)) ->
     apropos (if fst ic then snd ic ++ [slash] else snd ic) = Some m ->
-    In e (dep_values m) -> rel2abs e (snd ic) = Some t ->
+    In e (dep_values m) -> resolve_entry (fst ic) (port_name m) e (snd ic) = Some t ->
     index_of A t ms = Some i -> has_key (map_keys A ms) t = true -> t <> k ->
     In (i, o) ps.
   Proof.
     intros ms ps k o ic m e t i Hp Hk Ho Hic Hm He Hr Hi Hkey Hne.
     apply flagged_in_lookups in Hic.
-    exact (edges_complete ms ps k o (lookup_path ic, snd ic) m e t i Hp Hk Ho Hic Hm He Hr Hi Hkey Hne).
+    exact (edges_complete ms ps k o _ m e t i Hp Hk Ho Hic Hm He Hr Hi Hkey Hne).
   Qed.
 
   (* ... and the "self:" port of every directory above the address
@@ -274,12 +276,12 @@ Section Pushed.
     In k (map_keys A ms) -> index_of A k ms = Some o ->
     In ic (flagged (ancestors k)) ->
     rel2abs self_name (snd ic) = Some s -> apropos s = Some m ->
-    In e (dep_values m) -> rel2abs e (snd ic) = Some t ->
+    In e (dep_values m) -> resolve_entry (fst ic) (port_name m) e (snd ic) = Some t ->
     index_of A t ms = Some i -> has_key (map_keys A ms) t = true -> t <> k ->
     In (i, o) ps.
   Proof.
     intros ms ps k o ic s m e t i Hp Hk Ho Hic Hs Hm He Hr Hi Hkey Hne.
     pose proof (self_in_lookups _ _ _ Hic Hs) as Hl.
-    exact (edges_complete ms ps k o (s, snd ic) m e t i Hp Hk Ho Hl Hm He Hr Hi Hkey Hne).
+    exact (edges_complete ms ps k o _ m e t i Hp Hk Ho Hl Hm He Hr Hi Hkey Hne).
   Qed.
 End Pushed.
